@@ -39,6 +39,8 @@ def _first(case, step):
 def key_fn(case, ob, code):
     step, clause = code // 100, code % 100
     how, d, v = _first(case, step)
+    if any(v2 == ["PUndefined"] for _, v2 in case["ops"][step][1]):
+        return "out-of-domain-readable/Undefined-sentinel-bypasses-validation"                # F22
     if d[0] == "DCompound" and any(a[0] in ("DMap", "DPrefixMap") for a in d[1]):
         return "compound-with-Map-alternative/post_setattr-raises-KeyError-after-storing"     # F19
     if clause == 1 and d[0] == "DInstance" and not d[2] and d[1] in (0, 1) and \
@@ -101,6 +103,9 @@ def corpus():
     one(["DPrefixMap", [[pv.W("yes"), ["PInt", 1]], [pv.W("no"), ["PInt", 0]], [pv.W("yesterday"), ["PInt", 2]]]],
         S("ye"), S("n"), S("yest"), ["PStrSub", pv.W("no")], ["PInt", 1])
     one(["DCompound", [["DMap", [[S("a"), ["PInt", 1]]]], ["DInt"]]], S("a"), ["PInt", 5], S("b"))
+    for how in ("Attr", "TraitSet", "Ctor"):                                           # F22
+        one(["DInt"], ["PInt", 3], ["PUndefined"], ["PInt", 4], how=how)
+    one(["DRangeF", F(0.0), F(1.0), 0], ["PUndefined"])
     one(["DInt"], ["PIndexObj", ["Raises", "EValueError"]], ["PIndexObj", ["Raises", "ETypeError"]], ["PBool", True], how="TraitSet")
     one(["DFloat"], ["PInt", 10 ** 400], ["PFloatObj", ["Raises", "EValueError"]], ["PIndexObj", ["Returns", 10 ** 400]], how="Ctor")
     one(["DTuple", [["DInt"], ["DFloat"]]], ["PTuple", [["PInt", 1], ["PIndexObj", ["Raises", "EOverflowError"]]]],
@@ -124,10 +129,11 @@ def configs(rnd, quick):
                 ["DCompound", [["DString", 0, 5, None], ["DCast", "CTInt"]]], ["DCompound", [["DInt"], ["DStr"]]],
                 ["DTuple", [["DInt"], ["DStr"]]], ["DTuple", [["DUnion", [["DRangeF", pv.F(0.0), None, 1], ["DStr"]]], ["DBool"]]],
                 ["DTuple", [["DTuple", [["DInt"], ["DCast", "CTFloat"]]], ["DString", 1, 3, 1]]]])
-    fixed = fixed + [w for d in fixed for w in pv.variants(d)] + [
+    # (Supports stores an extra name_ entry through its own post_setattr: validation-only variant, used by C03)
+    fixed = fixed + [w for d in fixed for w in pv.variants(d) if "Supports" not in w] + [
         ["DUnion", [["DEnum", [["PNone"]]], ["DInt"]]], ["DUnion", [["DStr"], ["DEnum", [["PNone"]]]]]]
     rand = []
-    for _ in range(80 if quick else 700):
+    for _ in range(80 if quick else 900):
         d = pv.gen_desc(rnd, 3)
         while has_mapped_compound(d):      # F19: only the fixed corpus histories exercise that shape
             d = pv.gen_desc(rnd, 3)
@@ -141,7 +147,7 @@ def gen_cases(ctx, rnd):
     quick = ctx.tier == "quick"
     cases = corpus()
     fixed, rand = configs(rnd, quick)
-    per_fixed, per_rand, maxlen = (7, 5, 4) if quick else (60, 15, 8)
+    per_fixed, per_rand, maxlen = (7, 5, 4) if quick else (90, 15, 8)
     # every fixed configuration meets the key atoms once (None, bool, int, float, NaN, str, tuple, instance, class, ...)
     key_atoms = [["PNone"], ["PBool", True], ["PInt", 1], ["PFloat", pv.F(0.5)], ["PFloat", pv.NAN], pv.S("a"),
                  ["PTuple", [["PInt", 1], ["PInt", 2]]], ["PObj", 100, 1], ["PType", 100], ["PCallable", 1],
